@@ -1,11 +1,14 @@
 import MW.Drv.Amt
+import MW.Drv.Kv
 open MW
 structure DSt where
   sAmt : Drv.Amt.St := Drv.Amt.init
+  sKv : Drv.Kv.St := Drv.Kv.init
 
 def dstep (st : DSt) (line : String) : DSt × String :=
   match (line.trimAscii.toString.splitOn " ").filter (· ≠ "") with
   | "amt" :: args => let (s, o) := Drv.Amt.step st.sAmt args; ({ st with sAmt := s }, o)
+  | "kv" :: args => let (s, o) := Drv.Kv.step st.sKv args; ({ st with sKv := s }, o)
   | ["reset"] => ({}, "ok")
   | _ => (st, "bad-engine")
 
